@@ -159,7 +159,7 @@ def space(tier):
             splits = sorted({rng.randrange(0, n + 1) for _ in range(rng.randint(1, 3))})
         return {"config": {"version": rng.choice([2, 2, 3])}, "records": recs, "splits": splits,
                 "flag": rng.choice([None, False])}
-    sp.add("random", 2500 if tier == "quick" else 200_000, rnd)
+    sp.add("random", 2500 if tier == "quick" else 400_000, rnd)
     return sp
 
 
